@@ -192,7 +192,12 @@ fn parse_nat<const BASE: u32>(raw: &str) -> Result<f64> {
 		} else if let Some(digit) = checked_sub_if(BASE > 10, digit, UPPER_A_CODE) {
 			digit + 10
 		} else {
-			digit.checked_sub(ZERO_CODE).unwrap_or(BASE)
+			// Only '0'..='9' are decimal digits; for BASE > 10 the characters between
+			// '9' and 'A' (":;<=>?@") must not be read as the values 10..16.
+			digit
+				.checked_sub(ZERO_CODE)
+				.filter(|digit| *digit < 10)
+				.unwrap_or(BASE)
 		};
 
 		if digit < BASE {
